@@ -110,7 +110,7 @@ def r06_2(prog, rep, rid='R06.2'):
     rep.rule(rid, 'Task._state is written only by Task.__init__ (NEW) and '
              'Task._update; _update is called only from the replay loop of '
              '_update_tasks and from the guarded pilot-death callback',
-             minimum=4)
+             minimum=3)
     task = prog.cls(*TASK)
     new = prog.const(STATES, 'NEW')
     n_upd = 0
